@@ -88,6 +88,9 @@ def _adapter(ctx, modattr, width, cost_param, extra=None):
 
 
 def _no_opaque(ctx, rule, key, loc, nf):
+    if nf is None:
+        ctx.undecided(rule, key, loc, "the returned value has no normal form (a call without a model on the path)")
+        return False
     bad = [repr(a) for a in atoms_of(nf).values() if a.kind == "arr" or (a.kind == "app" and a.args[0] in ("asarray", "array", "opq"))]
     if bad:
         ctx.undecided(rule, key, loc, f"unmodelled construct in the value: {bad[:3]}")
@@ -110,7 +113,7 @@ def check_change_score(ctx):
     spec, _ = run_spec(ctx, "scores", "change_score", lambda sx: [Num(C(c0, c2), (K, Pdim)), Num(C(c0, c1), (K, Pdim)), Num(C(c1, c2), (K, Pdim))])
     for p in rets:
         v = p.value
-        if _no_opaque(ctx, rule, "ChangeScore", loc, v.nf):
+        if _no_opaque(ctx, rule, "ChangeScore", loc, getattr(v, "nf", None)):
             ctx.check(nf_equal(v.nf, spec.nf), rule, "ChangeScore|value", loc, "change score == C(s,e) - C(s,k) - C(k,e) on the currently fitted data", found=repr(v.nf), expected=repr(spec.nf))
     _min_size(ctx, ex, st, "ChangeScore", "cost", loc)
     # invalid cuts paths raise ValueError only
@@ -159,7 +162,7 @@ def check_saving(ctx):
     spec, _ = run_spec(ctx, "scores", "saving", lambda sx: [Num(app("eval", "cost", xk, cutsnf), (K, Pdim)), Num(app("eval", opt.key if isinstance(opt, ObjV) else "?", xk, cutsnf), (K, Pdim))])
     for p in rets:
         v = p.value
-        if _no_opaque(ctx, rule, "Saving", loc, v.nf):
+        if _no_opaque(ctx, rule, "Saving", loc, getattr(v, "nf", None)):
             ctx.check(nf_equal(v.nf, spec.nf), rule, "Saving|value", loc, "saving == baseline.evaluate(cuts) - optimised.evaluate(cuts), both fitted on the current data", found=repr(v.nf), expected=repr(spec.nf))
     _min_size(ctx, ex, st, "Saving", opt.key if isinstance(opt, ObjV) else "?", loc)
     _raise_kinds(ctx, paths, "Saving", loc)
@@ -202,6 +205,8 @@ def check_local(ctx):
     for p in rets:
         v = p.value
         # the value is outer - inner - <buffer written row by row>
+        if not _no_opaque(ctx, rule, "LocalAnomalyScore", loc, getattr(v, "nf", None) if getattr(v, "nf", None) is None else NF.const(0)):
+            continue
         arrs = [a for a in atoms_of(v.nf, deep=False).values() if a.kind == "arr"]
         if len(arrs) != 1:
             ctx.undecided(rule, "LocalAnomalyScore", loc, f"expected exactly one row-wise buffer in the returned value, found {len(arrs)}")
@@ -278,7 +283,7 @@ def check_direct(ctx, pkg, name, width, specname):
     spec, _ = run_spec(ctx, "scores", specname, spec_args)
     for p in rets:
         v = p.value
-        if _no_opaque(ctx, rule, name, loc, v.nf):
+        if _no_opaque(ctx, rule, name, loc, getattr(v, "nf", None)):
             ctx.check(nf_equal(v.nf, spec.nf), rule, f"{name}|value", loc, f"value == definition spec/scores.py:{specname}", found=repr(v.nf), expected=repr(spec.nf))
         shp = v.shape
         ok = shp is not None and len(shp) == 2 and nf_equal(lift(shp[0]), lift(K)) and nf_equal(lift(shp[1]), lift(Pdim))
